@@ -27,10 +27,11 @@ RULE = ("one run = 1-3 regular and 1-2 operating-point actors subscribed for rep
         "sequence (kind, actor)")
 QUICK_RUNS = 4000
 THOROUGH_RUNS = 250_000
-EXPECT_PROBES = ["bounds_update_between_proposals", "only_regular_changed", "only_op_changed", "partial_failure_result",
+EXPECT_PROBES = ["two_component_groups", "bounds_update_between_proposals", "only_regular_changed", "only_op_changed", "partial_failure_result",
                  "error_result", "expiry", "bounds_shrink_below_sum"]
 
 IDS = frozenset({8, 18})
+IDS2 = frozenset({28, 38})
 
 
 def scenario(sim: Sim) -> None:
@@ -39,35 +40,46 @@ def scenario(sim: Sim) -> None:
     nop = ch.int_between("nop", 1, 2)
     regs = [{"name": f"r{i}", "prio": p, "op": False} for i, p in enumerate(ch.shuffle("rp", [1, 3, 5, 8])[:nreg])]
     ops = [{"name": f"o{i}", "prio": p, "op": True} for i, p in enumerate(ch.shuffle("opp", [2, 4, 9])[:nop])]
-    h = pm.ActorHarness(sim, [IDS])
+    ngroups = 1 + ch.weighted("ngroups", [3, 1])
+    groups = [IDS, IDS2][:ngroups]
+    if ngroups > 1:
+        sim.probe("two_component_groups")
+    h = pm.ActorHarness(sim, groups)
     sim.set_cost_mode(ch.weighted("cost_mode", [3, 1]))
-    st: dict[str, Any] = {"sb": None, "sb_prev": None, "checked_req": 0, "nbounds_since_prop": 0,
-                          "last_sum": None, "have_reg": False, "have_op": False}
+    sts: list[dict[str, Any]] = [{"sb": None, "sb_prev": None, "checked_req": 0, "nbounds_since_prop": 0,
+                                  "last_sum": None, "have_reg": False, "have_op": False, "last_event": "bounds"}
+                                 for _ in groups]
 
-    def targets() -> tuple[float, float, bool]:
+    def targets(g: int) -> tuple[float, float, bool]:
         r = o = 0.0
         seen = False
         for a in regs:
-            reps = h.reports[(0, a["name"])]
+            reps = h.reports[(g, a["name"])]
             if reps:
                 seen = True
                 r = pm.watts(reps[-1].target_power) or 0.0
         for a in ops:
-            reps = h.reports[(0, a["name"])]
+            reps = h.reports[(g, a["name"])]
             if reps:
                 seen = True
                 o = pm.watts(reps[-1].target_power) or 0.0
         return r, o, seen
 
     def on_idle() -> None:
+        for g in range(ngroups):
+            check_group(g)
+
+    def check_group(g: int) -> None:
+        st = sts[g]
+        greqs = [r for r in h.requests if r["g"] == g]
         # evaluated whenever something happened since the last idle point: a new Request, or a bounds update
         # (after which the last Request must either have been replaced or still be inside the new bounds)
-        key = (len(h.requests), len(h.published))
-        if not h.requests or st["sb"] is None or key == st["checked_req"]:
+        key = (len(greqs), len([p for p in h.published if p["g"] == g]))
+        if not greqs or st["sb"] is None or key == st["checked_req"]:
             return
         st["checked_req"] = key
-        req = h.requests[-1]
-        r, o, seen = targets()
+        req = greqs[-1]
+        r, o, seen = targets(g)
         if not seen:
             return
         sim.model_states.add((r != 0.0, o != 0.0))
@@ -86,31 +98,35 @@ def scenario(sim: Sim) -> None:
 
     async def main() -> None:
         await h.start()
-        for a in regs + ops:
-            await h.subscribe_reports(0, a)
+        for g in range(ngroups):
+            for a in regs + ops:
+                await h.subscribe_reports(g, a)
         await asyncio.sleep(0.01)
-        sb = pm.gen_sysbounds(ch, allow_none=False)
-        st["sb"] = sb
-        st["last_event"] = "bounds"
-        h.publish_bounds(0, sb)
+        for g in range(ngroups):
+            sb = pm.gen_sysbounds(ch, allow_none=False)
+            sts[g]["sb"] = sb
+            h.publish_bounds(g, sb)
         await asyncio.sleep(0.01)
         sim.loop.idle_hooks.append(on_idle)
-        live_reg: dict[str, dict[str, Any]] = {}
-        live_op: dict[str, dict[str, Any]] = {}
+        live_regs: list[dict[str, dict[str, Any]]] = [{} for _ in groups]
+        live_ops: list[dict[str, dict[str, Any]]] = [{} for _ in groups]
         pending_results: list[Any] = []
         for _ in range(ch.int_between("nevents", 8, sim.scale(40, 100))):
+            g = ch.draw("group", ngroups)
+            st = sts[g]
+            live_reg, live_op = live_regs[g], live_ops[g]
             kind = ch.weighted("event", [5, 4, 5, 3, 2])
             if kind in (0, 1):
                 a = (regs if kind == 0 else ops)[ch.draw("actor", nreg if kind == 0 else nop)]
                 p = pm.gen_proposal(ch, a, st["sb"], list(live_reg.values()) + list(live_op.values()), sim.loop.time())
                 (live_reg if kind == 0 else live_op)[a["name"]] = p
                 st["have_reg" if kind == 0 else "have_op"] = True
-                nreq = len(h.requests)
+                nreq = len([r for r in h.requests if r["g"] == g])
                 st["last_event"] = "regular_proposal" if kind == 0 else "op_proposal"
                 st["nbounds_since_prop"] = 0
-                h.propose(0, p)
+                h.propose(g, p)
                 await asyncio.sleep(0.002)
-                if len(h.requests) <= nreq:
+                if len([r for r in h.requests if r["g"] == g]) <= nreq:
                     sim.soft_violation("proposal_produces_request", {"what": "no request after a proposal"}, pm.pstr(p))
             elif kind == 2:
                 old = st["sb"]
@@ -125,7 +141,7 @@ def scenario(sim: Sim) -> None:
                 elif bk == 2:   # widen
                     sb2 = dict(old, lo=old["lo"] * 2 - 10, hi=old["hi"] * 2 + 10)
                 else:           # shift upper down to just below / at / above the current sum
-                    r, o, _s = targets()
+                    r, o, _s = targets(g)
                     tgt = r + o
                     sb2 = dict(old, hi=max(0.0, tgt + ch.choice("edge", [-1.0, 0.0, 1.0, -5.0])),
                                lo=min(0.0, old["lo"]))
@@ -133,19 +149,20 @@ def scenario(sim: Sim) -> None:
                 if st["have_reg"] and st["have_op"]:
                     sim.probe("bounds_update_between_proposals")
                     sim.nontrivial = True
-                r0, o0, _s = targets()
+                r0, o0, _s = targets(g)
                 st["sb_prev"], st["sb"] = old, sb2
                 st["last_event"] = "bounds"
                 st["nbounds_since_prop"] += 1
-                h.publish_bounds(0, sb2)
+                h.publish_bounds(g, sb2)
                 await asyncio.sleep(0.002)
-                r1, o1, _s = targets()
+                r1, o1, _s = targets(g)
                 if r1 != r0 and o1 == o0:
                     sim.probe("only_regular_changed")
                 if o1 != o0 and r1 == r0:
                     sim.probe("only_op_changed")
             elif kind == 3:
-                if h.requests:
+                greqs2 = [r for r in h.requests if r["g"] == g]
+                if greqs2:
                     rk = ch.weighted("result_kind", [4, 2, 2])
                     kindname = ["success", "partial", "error"][rk]
                     if rk == 1:
@@ -154,7 +171,7 @@ def scenario(sim: Sim) -> None:
                         sim.probe("error_result")
                     sim.fault("result_" + kindname)
                     st["last_event"] = "result_" + kindname
-                    h.send_result(kindname, h.requests[-1]["req"])
+                    h.send_result(kindname, greqs2[-1]["req"])
                     await asyncio.sleep(ch.choice("res_gap", [0.001, 0.05, 0.5]))
             else:
                 dt = ch.choice("dt_s", [0.3, 1.0, 5.0, 30.0, 59.5, 61.0, 63.0])
